@@ -133,8 +133,15 @@ def analyse(repo, rep):
             states = nxt
         return states
     trys = [n for n in rp.body if isinstance(n, ast.Try)]
-    if len(trys) != 1 or len(rp.body) != 1:
-        raise AnalysisError('read_packet: expected a single try statement as body')
+    # statements before the try may only set up locals (no socket read): `header = WriteBuf()` hoisted out of the try is the same function
+    lead = [n for n in rp.body if not isinstance(n, ast.Try)]
+    for st in lead:
+        if rp.body.index(st) > rp.body.index(trys[0]) if trys else True:
+            raise AnalysisError('read_packet: statements after / without the try statement: %s' % stmt_text(st)[:60])
+        if not isinstance(st, (ast.Assign, ast.AnnAssign)) or any(isinstance(x, ast.Call) and isinstance(x.func, ast.Attribute) and (x.func.attr.startswith('read') or x.func.attr in ('recv', 'ensure_read')) for x in ast.walk(st)):
+            raise AnalysisError('read_packet: unexpected statement before the try: %s' % stmt_text(st)[:60])
+    if len(trys) != 1:
+        raise AnalysisError('read_packet: expected a single try statement')
     walk_path(trys[0].body, ({}, 0), {})
     for h in trys[0].handlers:
         walk_path(h.body, ({}, 0), {})
@@ -152,3 +159,91 @@ def report(rep, framing, rule='framing'):
     if not framing['bad']:
         rep.ob(rule, 'every consuming socket read in read_packet is covered by a preceding ensure_read on every path (%d paths, %d reads)' % (framing['paths'], framing['reads']), True)
     rep.samples.append({'rule': rule, 'paths': framing['paths'], 'reads': framing['reads']})
+
+
+# ---------------------------------------------------------------------------------------------------------------------------------------
+# what the reader computes, per protocol version: the size it tests against the block size, the payload it reads, the checksum it verifies.
+# Statements are linearised along the `sshv == 1` / other path; locals are substituted forward (values read from the socket become symbols).
+# ---------------------------------------------------------------------------------------------------------------------------------------
+def reader_model(repo):
+    rp = repo.func('ssh_socket', 'SSH_Socket.read_packet')
+    trys = [n for n in rp.body if isinstance(n, ast.Try)]
+    if len(trys) != 1:
+        raise AnalysisError('read_packet: expected a single try statement')
+
+    def lin(node, defs):
+        if isinstance(node, ast.Constant) and isinstance(node.value, int) and not isinstance(node.value, bool):
+            return {}, node.value
+        if isinstance(node, ast.Name) and node.id in defs:
+            return defs[node.id]
+        if isinstance(node, ast.BinOp) and isinstance(node.op, (ast.Add, ast.Sub)):
+            a, ca = lin(node.left, defs)
+            b, cb = lin(node.right, defs)
+            sgn = 1 if isinstance(node.op, ast.Add) else -1
+            out = dict(a)
+            for k, v in b.items():
+                out[k] = out.get(k, 0) + sgn * v
+            return {k: v for k, v in out.items() if v != 0}, ca + sgn * cb
+        return {unparse(node): 1}, 0
+
+    def subst(node, exprs):
+        class S(ast.NodeTransformer):
+            def visit_Name(self, n):
+                return _strip(exprs[n.id]) if isinstance(n.ctx, ast.Load) and n.id in exprs else n
+        return S().visit(_strip(node))
+
+    def subst_text(node, exprs):
+        return unparse(subst(node, exprs))
+
+    def _strip(node):
+        new = type(node)()
+        for f in node._fields:
+            v = getattr(node, f, None)
+            if isinstance(v, list):
+                setattr(new, f, [_strip(x) if isinstance(x, ast.AST) else x for x in v])
+            elif isinstance(v, ast.AST):
+                setattr(new, f, _strip(v))
+            else:
+                setattr(new, f, v)
+        return new
+    out = {}
+    for proto in (1, 2):
+        defs, exprs = {}, {}
+        res = {'block_tests': [], 'payload_reads': [], 'crc_tests': [], 'exits_on_block': False}
+
+        def walk(stmts):
+            for st in stmts:
+                if isinstance(st, ast.If):
+                    t = unparse(st.test)
+                    if t in ('sshv == 1', 'sshv != 2'):
+                        walk(st.body if proto == 1 else st.orelse)
+                        continue
+                    if t in ('sshv == 2', 'sshv != 1'):
+                        walk(st.body if proto == 2 else st.orelse)
+                        continue
+                    for c in ast.walk(st.test):
+                        if isinstance(c, ast.BinOp) and isinstance(c.op, ast.Mod) and 'block_size' in unparse(c.right):
+                            res['block_tests'].append((lin(c.left, defs), unparse(st.test), st))
+                    if isinstance(st.test, ast.Compare) and len(st.test.ops) == 1 and isinstance(st.test.ops[0], (ast.NotEq, ast.Eq)) and 'crc32' in subst_text(st.test, exprs):
+                        res['crc_tests'].append((subst_text(st.test.left, exprs), type(st.test.ops[0]).__name__, subst_text(st.test.comparators[0], exprs), st))
+                    # guards that leave the function are not followed; other branches do not define lengths in any known spelling
+                    continue
+                if isinstance(st, (ast.Assign, ast.AnnAssign)) and st.value is not None:
+                    tg = st.targets[0] if isinstance(st, ast.Assign) else st.target
+                    if isinstance(tg, ast.Name):
+                        v = st.value
+                        if isinstance(v, ast.Call) and isinstance(v.func, ast.Attribute) and unparse(v.func.value) == 'self' and v.func.attr in ('read_int', 'read_byte'):
+                            defs[tg.id] = ({tg.id: 1}, 0)
+                            exprs[tg.id] = ast.Name(id='WIRE_%s_%s' % (v.func.attr, tg.id), ctx=ast.Load())
+                        elif isinstance(v, ast.Call) and isinstance(v.func, ast.Attribute) and unparse(v.func.value) == 'self' and v.func.attr == 'read' and v.args:
+                            res['payload_reads'].append((tg.id, lin(v.args[0], defs)))
+                            defs.pop(tg.id, None)
+                            exprs.pop(tg.id, None)
+                        else:
+                            l = lin(v, defs)
+                            defs[tg.id] = l if not (isinstance(v, ast.BinOp) and isinstance(v.op, ast.Mod)) and all('%' not in k for k in l[0]) else ({tg.id: 1}, 0)
+                            if not (isinstance(v, ast.Name) and v.id == tg.id):
+                                exprs[tg.id] = subst(v, exprs)
+        walk(trys[0].body)
+        out[proto] = res
+    return rp, out
